@@ -199,10 +199,34 @@ async fn run_case(case: &Case) -> CaseOut {
     let mut poll_runs: usize = 0;
     let mut channel_free_since: u64 = rig.now_ms();
 
+    // user requests by id: (outcome slot, whether the association's queue was full when it was submitted)
+    let pendings: Arc<Mutex<BTreeMap<u32, (crate::verif::rig::master::Pending, bool)>>> = Default::default();
+    // requests refused with TooManyRequests are not waiting for anything
+    macro_rules! purge_refused {
+        () => {{
+            let pend = pendings.lock().unwrap();
+            for q in queue.iter_mut() {
+                q.retain(|(id, _)| match pend.get(id) {
+                    Some((p, full)) => {
+                        let refused = p.outcomes().iter().any(|(_, o)| o.contains("TooManyRequests"));
+                        if refused && !*full {
+                            out.fail(Fail::new("refused-without-cause", format!("user request {id} failed with TooManyRequests although fewer than 16 requests of its association were waiting when it was submitted")));
+                        }
+                        if refused {
+                            out.label("refused_queue_full");
+                        }
+                        !refused
+                    }
+                    None => true,
+                });
+            }
+        }};
+    }
     // one scheduling tick: observe transmissions, answer what is due, check the invariants at quiescence
     macro_rules! tick {
         () => {{
             rig.settle().await;
+            purge_refused!();
             let now = rig.now_ms();
             for t in rig.take_tx() {
                 // a request that was never answered is over at its time-out instant
@@ -253,6 +277,9 @@ async fn run_case(case: &Case) -> CaseOut {
                             Some(f) => f,
                             None => continue,
                         };
+                        if std::env::var("VERIF_TRACE").is_ok() {
+                            eprintln!("t={t} tx to {dst}: func {} seq {} objects {:02x?}", f.func, f.seq, f.objects);
+                        }
                         if f.func == func::CONFIRM {
                             continue;
                         }
@@ -364,8 +391,11 @@ async fn run_case(case: &Case) -> CaseOut {
                     id as u16,
                     id as u16,
                 ));
-                let _p = rig.submit("read", async move { h.read(req).await });
+                let p = rig.submit("read", async move { h.read(req).await });
                 rig.settle().await;
+                // documented back-pressure: with max_queued_user_requests (16) requests of the association waiting,
+                // a further one fails with TooManyRequests instead of being queued
+                pendings.lock().unwrap().insert(id, (p, queue[a].len() >= 16));
                 queue[a].push((id, rig.now_ms()));
             }
             Op::Demand(a, p) => {
@@ -415,6 +445,7 @@ async fn run_case(case: &Case) -> CaseOut {
             }
         }
         while tick!() {}
+        purge_refused!();
         // at quiescence: nothing may be left waiting while the channel is idle
         if outstanding.is_none() && !out.failed() && rig.connected() {
             let now = rig.now_ms();
